@@ -82,6 +82,10 @@ class C13(Check):
         u = self.utils
         u._queries_enabled = True
         u.get_fg_bg_colors._invalidate_cache()
+        for obj in list(vars(u).values()):  # nothing memoized by an earlier path may leak into this one
+            inv = getattr(obj, "_invalidate_cache", None)
+            if callable(inv):
+                inv()
         pty = pm.Pty(eng, TIMEOUT)
         t = pty.install(u)
         pty.fault_at = eng.int("fault_at_syscall", -1)
@@ -126,6 +130,20 @@ class C13(Check):
             # only legitimate when the caller asked for an unbounded wait and nothing will ever arrive
             eng.claim("an unbounded wait happens only on request (negative timeout / min bytes that never come)", op == "read" and (shape["timeout"] == "neg" or shape["min"] > 0))
         eng.claim(f"terminal attributes are exactly as found ({op})", pty.same_attrs(pty.attr, pty.attr0))
+        if op in ("query", "read") and outcome in ("returned", "KeyboardInterrupt", "OSError"):
+            # later on the application switches the terminal to another mode and the library is used again (no fault this
+            # time): the attributes found *then* are the ones to put back
+            pty.attr0 = [eng.int(nm + "_later", 0) for nm in ("iflag", "oflag", "cflag", "lflag", "ispeed", "ospeed")] + \
+                        [[eng.int(f"cc{i}_later", 0, 255) if i in (pm.VMIN, pm.VTIME) else i for i in range(8)]]
+            pty.attr = pty._copy(pty.attr0)
+            pty.fault_at = None
+            pty.queue.clear()
+            try:
+                u.read_tty(lambda s: False, 0)
+            except pm.Blocked:
+                pass
+            eng.claim("a later operation, after the application changed the terminal mode, restores the attributes found at that time",
+                      pty.same_attrs(pty.attr, pty.attr0))
         eng.observe("syscalls", pty.calls)
 
     def draw(self, eng, shape, pty, t):
